@@ -24,7 +24,13 @@ Verdict(r) ==
       \* path cases: the record says from where, on which grammar path, with which root dir
       \* and output root the compiler ran and where the parser file was found afterwards
       \* (Paths.Predict; a difference in PLACE is a divergence of the model, an abort is C16)
-      where == IF "path" \notin DOMAIN r \/ ~total \/ want.outcome # "ok" THEN {}
+      where == IF "tree" \in DOMAIN r
+               THEN LET w == PT!DirPredict(r.tree.root, r.tree.out, r.tree.files, r.tree.rootx)
+                        got == {r.found[k] : k \in 1 .. Len(r.found)}
+                    IN IF ~total THEN {}
+                       ELSE IF r.outcome # "ok" THEN {<<"outcome", r.outcome, "ok">>}
+                       ELSE IF got # w THEN {<<"places", got \ w, w \ got>>} ELSE {}
+               ELSE IF "path" \notin DOMAIN r \/ ~total \/ want.outcome # "ok" THEN {}
                ELSE LET w == PT!Predict(r.path.cwd, r.path.out, r.path.root, r.path.g)
                     IN IF w.outcome # r.outcome THEN {<<"outcome", r.outcome, w.outcome>>}
                        ELSE IF r.outcome = "ok" /\ r.found # <<w.at>> THEN {<<"place", r.found, w.at>>}
